@@ -522,7 +522,9 @@ def check_c16(rep):
                           {"behaviour": b, "observed": o})
     # recorded histories, samples, frequencies validated by TLC
     raw = []
-    for ps in (["bfv_8_17_40,40,40", "ckks_8_0_40,40,40"] if quick else ["bfv_8_17_40,40,40", "bgv_8_17_40,40,40", "ckks_8_0_40,40,40", "bfv_16_97_50,50,50,50"]):
+    # (degree 32 and above: at degree 8 a public-key encryption that is switched down from the key level is, after rounding, determined by its
+    #  ternary sample alone - 3^8 possibilities - and two honest encryptions out of a few hundred coincide by chance)
+    for ps in (["bfv_32_193_40,40,40", "ckks_32_0_40,40,40"] if quick else ["bfv_32_193_40,40,40", "bgv_32_193_40,40,40", "ckks_32_0_40,40,40", "bfv_64_257_50,50,50,50"]):
         raw += hcv(["c16", "events", ps, str(rep.seed), rep.tier], timeout=900).splitlines()
     raw += hcv(["c16", "samples", str(rep.seed), rep.tier], timeout=900).splitlines()
     bad, st = arith.validate(raw, wd, module="Trace_Rng", chunks=4 if quick else 8)
